@@ -3,7 +3,7 @@
 Interface (DESIGN.md §2): ./check Cnn [--tier quick|thorough] [--explain <replay>]
 exit 0 = property clauses held (KNOWN-FINDING lines allowed), 1 = VIOLATION printed, 2 = internal failure.
 """
-import os, sys, json, hashlib, subprocess, time, shutil, fcntl, tempfile, importlib, traceback, collections
+import re, os, sys, json, hashlib, subprocess, time, shutil, fcntl, tempfile, importlib, traceback, collections
 
 VERIF = os.path.dirname(os.path.dirname(os.path.abspath(__file__)))
 REPO = os.environ.get("VERIF_REPO", "/repo")
@@ -222,6 +222,15 @@ def run_check(prop, tier, explain=None):
         return progs[config]
     ctx.prog = get_prog
     ctx.explain = explain
+
+    def get_witnesses():
+        import witness
+        d, h = facts_for("default")
+        try:
+            return witness.run_all(VERIF, REPO, os.path.dirname(d))
+        except RuntimeError as e:
+            raise InternalError(str(e))
+    ctx.witnesses = get_witnesses
     try:
         mod.run(ctx)
     except AnchorMissing as e:
@@ -257,6 +266,11 @@ def run_check(prop, tier, explain=None):
             out_lines.append("VIOLATION property=%s replay=%s" % (prop, path))
             out_lines.append("  rule=%s key=%s" % (v["rule"], v["key"]))
             out_lines.append("  at %s: %s" % (v.get("where"), v["what"]))
+    if tier == "thorough" and not os.environ.get("VERIF_NO_AUDIT") and REPO == "/repo":
+        try:
+            rep.extra["sensitivity_audit"] = sensitivity_audit(prop)
+        except Exception as e:  # the audit says nothing about the property; never let it change the verdict
+            rep.extra["sensitivity_audit"] = {"error": repr(e)}
     wall = time.time() - t0
     write_evidence(mod, rep, prop, tier, seed, wall, n_viol, n_known, progs)
     for l in out_lines:
@@ -265,6 +279,53 @@ def run_check(prop, tier, explain=None):
     print("%s %s: %d rule instances (%s); %d known findings; %d violations; %.1fs" % (
         prop, tier, sum(len(i) for i in rep.instances.values()), summary, n_known, n_viol, wall))
     return 1 if n_viol else 0
+
+
+def sensitivity_audit(prop):
+    """Thorough tier, still purely static: every recorded property-breaking patch of this property
+    (/verif/seeded/<prop>-*/patch.diff) is applied to its own scratch copy of the CURRENT /repo (under a temp dir,
+    removed afterwards), facts are re-extracted and the same quick rules run on it. Reports detected/applicable.
+    It shows that the rules that just passed could have failed; it is not part of the verdict."""
+    import concurrent.futures
+    seeds_dir = os.path.join(VERIF, "seeded")
+    ids = sorted(d for d in os.listdir(seeds_dir) if d.startswith(prop + "-") and
+                 os.path.isfile(os.path.join(seeds_dir, d, "patch.diff"))) if os.path.isdir(seeds_dir) else []
+    base = tempfile.mkdtemp(prefix="verif-audit-%s-" % prop)
+
+    def one(sid):
+        w = os.path.join(base, sid)
+        os.makedirs(w)
+        res = {"seed": sid, "applies": False, "detected": None, "rules": []}
+        try:
+            subprocess.run(["rsync", "-a", "--exclude", "target", "--exclude", ".git", REPO + "/", w + "/repo/"], check=True)
+            patch = os.path.join(seeds_dir, sid, "patch.diff")
+            r = subprocess.run(["patch", "-p1", "-s", "--dry-run", "-i", patch], cwd=w + "/repo",
+                               stdout=subprocess.PIPE, stderr=subprocess.STDOUT)
+            if r.returncode != 0:
+                return res
+            res["applies"] = True
+            subprocess.run(["patch", "-p1", "-s", "-i", patch], cwd=w + "/repo", check=True)
+            env = dict(os.environ, VERIF_REPO=w + "/repo", VERIF_EVIDENCE_DIR=w + "/evidence", VERIF_NO_AUDIT="1",
+                       VERIF_TIER="quick")
+            o = subprocess.run([os.path.join(VERIF, "check"), prop, "--tier", "quick"], env=env,
+                               stdout=subprocess.PIPE, stderr=subprocess.STDOUT, text=True)
+            res["detected"] = o.returncode == 1
+            res["rules"] = sorted(set(re.findall(r"rule=(\S+)", o.stdout)))
+            if o.returncode not in (0, 1):
+                res["error"] = o.stdout[-300:]
+        finally:
+            shutil.rmtree(w, ignore_errors=True)
+        return res
+    try:
+        with concurrent.futures.ThreadPoolExecutor(max_workers=4) as ex:
+            results = list(ex.map(one, ids))
+    finally:
+        shutil.rmtree(base, ignore_errors=True)
+    app = [r for r in results if r["applies"]]
+    return {"what": "recorded property-breaking patches re-applied to scratch copies of the current tree",
+            "patches": len(results), "applicable": len(app), "detected": sum(1 for r in app if r["detected"]),
+            "skipped_not_applicable_to_current_tree": [r["seed"] for r in results if not r["applies"]],
+            "results": results}
 
 
 def write_evidence(mod, rep, prop, tier, seed, wall, n_viol, n_known, progs):
